@@ -32,7 +32,8 @@ def _cfgs(tier):
 
 
 def bounds(tier):
-    return dict(mask_predicate="all 2^32 values", addresses="all 2^32 addresses (token injected as parsed value)", hash="all functions",
+    return dict(symbolic_networks="every preserved network of prefix length %s (network bits symbolic)" % ("8, 27, 32" if tier == "quick" else "1,7,8,9,12,16,24,25,27,31,32"),
+                mask_predicate="all 2^32 values", addresses="all 2^32 addresses (token injected as parsed value)", hash="all functions",
                 configs=[ipc.cfg_key(c) for c in _cfgs(tier)])
 
 
@@ -42,6 +43,10 @@ def items(tier, seed):
         out.append(Item("C05", "untouched", dict(cfg=c), budget_s=300, obligation="H2-kept-verbatim"))
         if c["networks"]:
             out.append(Item("C05", "no_collision", dict(cfg=c), budget_s=300, obligation="H3-no-collision"))
+    for L in ((8, 27, 32) if tier == "quick" else (1, 7, 8, 9, 12, 16, 24, 25, 27, 31, 32)):
+        for B in ((0, 8) if tier == "quick" else (0, 4, 8)):
+            out.append(Item("C05", "sym_network", dict(L=L, B=B, default_prefixes=False), budget_s=600, obligation="H2H3-every-network-of-a-length"))
+    out.append(Item("C05", "sym_network", dict(L=12, B=8, default_prefixes=True), budget_s=900, obligation="H2H3-every-network-of-a-length"))
     return out
 
 
@@ -155,4 +160,64 @@ def no_collision(item, res):
         raise core.EngineError("vacuity twin failed")
 
 
-HARNESSES = {"mask_predicate": mask_predicate, "untouched": untouched, "no_collision": no_collision}
+def sym_network(item, res):
+    """H2/H3 for *every* preserved network of a given prefix length (network bits symbolic)."""
+    L, B, use_default = item.params["L"], item.params["B"], item.params["default_prefixes"]
+    F = fam()
+    W = 32
+    a, sa = ipc.sym_addr("a", W)
+    ex = Explorer(deadline=time.time() + item.budget_s)
+    found = []
+
+    def h(ex_):
+        top = z3.BitVec("net", L) if L else None
+        net = SInt.unsigned(z3.Concat(top, z3.BitVecVal(0, 32 - L)) if L < 32 else top) if L else 0
+        an = F.ip.IpAnonymizer(ipc.SALT, None if use_default else [], [(net, L)], preserve_suffix=B)
+        ex_.path_data["top"] = top
+        inside = ex_.branch(ipc.in_sym_prefix(a, top, L))
+        masky = ex_.branch(mask_spec(a))
+        should = an.should_anonymize(sa)
+        r = ipc.out_bv(an.anonymize(sa), W)
+        bad = [z3.BoolVal(should != (not (inside or masky))), ipc.in_sym_prefix(r, top, L) != z3.BoolVal(inside)]
+        res["finals"] += 1
+        m = ex_.model(z3.Or(*bad))
+        if m is None:
+            res["finals_unsat"] += 1
+            return ("ok", r, top, inside)
+        found.append((m, top))
+        return ("cex", r, top, inside)
+    paths = ex.explore(h)
+    harness.add_stats(res, ex)
+
+    def cfg_of(m, top):
+        v = (ev(m, top) << (32 - L)) if L else 0
+        import ipaddress
+        return dict(prefixes=None if use_default else [], networks=["%s/%d" % (ipaddress.IPv4Address(v), L)], B=B)
+    nval = 0
+    for p in paths:
+        if p.exc is not None and p.model is not None:
+            found.append((p.model, p.extra.get("top")))
+        elif p.model is not None and nval < 20:
+            cfg = cfg_of(p.model, p.result[2])
+            av = ev(p.model, a)
+            _, rr = ipc.md5_table_for(p.model, cfg, 4, [["a", av]])
+            if rr["fresh"][0] != ev(p.model, p.result[1]):
+                raise core.EngineError("concolic mismatch with symbolic network %r" % (cfg,))
+            nval += 1
+            if len(res["samples"]) < 2:
+                res["samples"].append(dict(network=cfg["networks"], B=B, a=av, image=rr["fresh"][0], inside=p.result[3]))
+    res["validated"] += nval
+    for m, top in found[:3]:
+        cfg = cfg_of(m, top)
+        av = ev(m, a)
+        r = _plain_match(m, cfg, av)
+        res["violations"].append(dict(description="preserved network %r: address kept/replaced wrongly or mapped across the network boundary" % cfg["networks"],
+                                      witness=dict(a=av, cfg=ipc.cfg_key(cfg), texts=r["texts"]), tags=["sym-network"],
+                                      replay=dict(replayer="ip_network_contract", args=dict(cfg=cfg, a=av, md5_table=r["table"]))))
+        res["status"] = "violated"
+    res["vacuity"] = "witnessed" if {p.result[3] for p in paths if p.exc is None and p.result} == {True, False} or L == 0 else "VACUOUS"
+    if res["vacuity"] != "witnessed":
+        raise core.EngineError("vacuity: inside and outside addresses not both reachable")
+
+
+HARNESSES = {"mask_predicate": mask_predicate, "untouched": untouched, "no_collision": no_collision, "sym_network": sym_network}
